@@ -18,11 +18,26 @@
 (*                                             cursor over a list that is mutated while iterated    *)
 (*        PostPasses                           remove_unused_nodes (a rule keeps nodes), NameFix    *)
 (*        Cleanup                              the three clean-up passes of rewrite()               *)
-(*   3. is judged: WF (spec/Graph.tla) in every engine state, Eval preserved after every Splice,   *)
-(*      signature, frame, progress, termination, names/imports at the end.                         *)
+(*   3. is judged: WF (spec/Graph.tla) after every Splice and after the passes, Eval preserved     *)
+(*      after every Splice, signature, frame, progress, termination, names/imports at the end.     *)
 (* Values are scalars holding small integers (exact semantics Eval).                              *)
-(* Deviations (DESIGN 2.5): with Deviations = {} the design satisfies the property; with the      *)
-(* listed ids the model does what the code does and h.why records which were needed.             *)
+(*                                                                                              *)
+(* Deviations (DESIGN 2.5).  For rule sets that can reach one (DevProne) every host is run twice: *)
+(* with devs = {} (the DESIGN, which must satisfy the property: PropertyHolds) and with           *)
+(* devs = Deviations (the implementation model, emitted as the expected outcome; h.why records     *)
+(* the deviations a behaviour needed; everything else still satisfies the property:                *)
+(* DeviationsExplain).                                                                            *)
+(*   init_clash_overwrite            a new initializer whose name is taken overwrites the entry;    *)
+(*                                   the displaced value stays referenced (design: a free name)      *)
+(*   multi_output_insertion_point    replacement nodes go after the node the match started from     *)
+(*                                   even when a consumer of another matched output precedes it     *)
+(*   as_function_nested_opsets       the extracted function gets the opset imports of the graph     *)
+(*                                   the match lives in: a nested body has none (design: those of   *)
+(*                                   the enclosing model graph / function)                          *)
+(*   function_nested_import_missing  the replacement's domains are imported into the body and the   *)
+(*                                   model graph, not into the enclosing function                   *)
+(*   var_binds_removed_intermediate  a pattern variable bound to an output of a matched node that    *)
+(*                                   the match removes: Splice raises half way (design: no match)   *)
 EXTENDS Integers, Sequences, FiniteSets, TLC, Json
 G == INSTANCE Graph
 
